@@ -44,11 +44,16 @@ def allocators(model: RepoModel) -> Set[str]:
     return out
 
 
-def body_effects(model: RepoModel, f: Func, body: List[ast.stmt], allocs: Set[str], depth: int = 1) -> Dict[str, List[int]]:
+def body_effects(model: RepoModel, f: Func, body: List[ast.stmt], allocs: Set[str], depth: int = 1, elem: Optional[str] = None) -> Dict[str, List[int]]:
     """order-sensitive effects syntactically present in a loop body (one call deep through self.m())."""
     eff: Dict[str, List[int]] = {}
     for st in body:
         for n in walk_no_nested(st) if not isinstance(st, (ast.FunctionDef, ast.ClassDef)) else []:
+            # `D[<element>] = v`: a dict keeps insertion order, so the order of the keys of D is the order of this loop
+            if elem is not None and isinstance(n, ast.Assign):
+                for t in n.targets:
+                    if isinstance(t, ast.Subscript) and isinstance(t.slice, ast.Name) and t.slice.id == elem:
+                        eff.setdefault("inserts keys into a mapping (insertion order is kept)", []).append(n.lineno)
             if isinstance(n, ast.Call):
                 cn = call_name(n) or ""
                 last = n.func.attr if isinstance(n.func, ast.Attribute) else cn
@@ -88,6 +93,10 @@ def _is_set_expr(e) -> bool:
     if isinstance(e, ast.Call) and call_name(e) in ("set", "frozenset"):
         return True
     if isinstance(e, ast.BinOp) and isinstance(e.op, (ast.BitOr, ast.BitAnd, ast.Sub, ast.BitXor)) and (_is_set_expr(e.left) or _is_set_expr(e.right)):
+        return True
+    # set algebra on dict views: `a.keys() - b.keys()` is a set
+    if isinstance(e, ast.BinOp) and isinstance(e.op, (ast.BitOr, ast.BitAnd, ast.Sub, ast.BitXor)) and any(
+            isinstance(x, ast.Call) and isinstance(x.func, ast.Attribute) and x.func.attr in ("keys", "items") and not x.args for x in (e.left, e.right)):
         return True
     return False
 
@@ -152,7 +161,7 @@ def run(model: RepoModel, rep, tier: str):
     rep.rule("C14.R2", "no iteration over a hash-ordered collection of strings/objects allocates identifiers, appends to a stored sequence "
                        "or picks a first match, unless sorted", min_instances=10)
     rep.rule("C14.R4", "a forced run starts from an empty workspace: the wipe visits every entry, so results cannot depend on what an "
-                       "earlier run left behind", min_instances=1)
+                       "earlier run left behind", min_instances=2)
     rep.rule("C14.R5", "what a file is (project code or extern mock code) is decided by its path relative to the workspace, never by a substring "
                        "of its absolute path: otherwise the result depends on where the workspace happens to be located", 1)
     _r5_location_independence(model, rep)
@@ -206,7 +215,31 @@ def run(model: RepoModel, rep, tier: str):
                                 dict_consumed_by_alloc.append(f"{g.qualname} iterates self.{attr} and allocates ids")
             adj = ADJUDICATED.get((f.ref, norm(inner)))
             sensitive = {k: v for k, v in eff.items() if k.startswith("allocates") or k.startswith("appends") or k.startswith("first match")}
-            if wrapped_sorted:
+            lossy_key = None
+            if wrapped_sorted and isinstance(it, ast.Call) and call_name(it) == "sorted":
+                kk = next((k.value for k in it.keywords if k.arg == "key"), None)
+                if kk is not None:
+                    # the sort key has to tell any two directory entries apart: the entry's name/path itself (alone or as a tuple
+                    # component); anything computed from it by a many-to-one function leaves ties in enumeration order
+                    def injective(e, argname):
+                        if isinstance(e, ast.Name) and e.id == argname:
+                            return True
+                        if isinstance(e, ast.Attribute) and isinstance(e.value, ast.Name) and e.value.id == argname and e.attr in ("name", "path"):
+                            return True
+                        if isinstance(e, ast.Tuple):
+                            return any(injective(x, argname) for x in e.elts)
+                        return False
+                    if isinstance(kk, ast.Lambda) and kk.args.args:
+                        if not injective(kk.body, kk.args.args[0].arg):
+                            lossy_key = norm(kk)
+                    elif not (isinstance(kk, ast.Attribute) and kk.attr in ("name", "path")):
+                        lossy_key = norm(kk)
+            if wrapped_sorted and lossy_key and (any(k.startswith("allocates") for k in eff) or sensitive):
+                rep.violation("C14.R1", key, f.module.rel, n.lineno,
+                              f"{f.ref} sorts `{norm(inner)}` with `key={lossy_key}`, which maps different entries to the same key (names differing "
+                              f"only in what the key ignores): sorted() is stable, so such entries stay in the order the filesystem returned them "
+                              f"and {sorted(eff)[0] if eff else 'the order-sensitive body'} follows that order")
+            elif wrapped_sorted:
                 rep.holds("C14.R1", key, f.module.rel, n.lineno, "the listing is sorted before it is consumed")
             elif any(k.startswith("allocates") for k in eff):
                 rep.violation("C14.R1", key, f.module.rel, n.lineno,
@@ -268,8 +301,31 @@ def run(model: RepoModel, rep, tier: str):
                     if isinstance(x, ast.Call) and (call_name(x) or "") in ("re.escape", "os.path.join", "os.path.basename", "os.path.dirname") \
                             and any(isinstance(a, ast.Name) and a.id == tv for a in x.args):
                         kind, ev = "str", f"{call_name(x)}({tv}) in the loop body"
-            eff = body_effects(model, f, n.body, allocs)
-            sensitive = sorted(k for k in eff if k.startswith("allocates") or k.startswith("appends") or k.startswith("first match") or k.startswith("rewrites"))
+                    # field names are program identifiers: the key of a FIELD_ELEMENT access point is a string
+                    if isinstance(x, ast.Call) and (call_name(x) or "").endswith("AccessPoint") and any(
+                            k.arg == "key" and isinstance(k.value, ast.Name) and k.value.id == tv for k in x.keywords) and any(
+                            k.arg == "kind" and norm(k.value).endswith("FIELD_ELEMENT") for k in x.keywords):
+                        kind, ev = "str", f"AccessPoint(kind=FIELD_ELEMENT, key={tv}) in the loop body"
+            if kind == "unknown" and what[0] == "expr":
+                # keys of the mappings the set is computed from: another loop of this function over the same mapping tells their kind
+                maps = {norm(x.func.value) for x in ast.walk(it) if isinstance(x, ast.Call) and isinstance(x.func, ast.Attribute) and x.func.attr in ("keys", "items")}
+                for L2 in walk_no_nested(f.node):
+                    if not (isinstance(L2, ast.For) and L2 is not n):
+                        continue
+                    src2 = L2.iter.func.value if isinstance(L2.iter, ast.Call) and isinstance(L2.iter.func, ast.Attribute) and L2.iter.func.attr in ("keys", "items") else L2.iter
+                    if norm(src2) not in maps:
+                        continue
+                    kv = L2.target.elts[0] if isinstance(L2.target, ast.Tuple) and L2.target.elts else L2.target
+                    if not isinstance(kv, ast.Name):
+                        continue
+                    for x in ast.walk(L2):
+                        if isinstance(x, ast.Call) and (call_name(x) or "").endswith("AccessPoint") and any(
+                                k.arg == "key" and isinstance(k.value, ast.Name) and k.value.id == kv.id for k in x.keywords) and any(
+                                k.arg == "kind" and norm(k.value).endswith("FIELD_ELEMENT") for k in x.keywords):
+                            kind, ev = "str", f"keys of `{norm(src2)}` are field names (AccessPoint(kind=FIELD_ELEMENT, key={kv.id}), line {x.lineno})"
+            eff = body_effects(model, f, n.body, allocs, elem=n.target.id if isinstance(n.target, ast.Name) else None)
+            sensitive = sorted(k for k in eff if k.startswith("allocates") or k.startswith("appends") or k.startswith("first match") or k.startswith("rewrites")
+                               or k.startswith("inserts keys"))
             if kind == "int":
                 rep.holds("C14.R2", key, f.module.rel, n.lineno, f"elements are ints ({ev}): set order does not depend on the hash seed")
             elif not sensitive:
@@ -360,6 +416,23 @@ def run(model: RepoModel, rep, tier: str):
                           + ": files left by an earlier run (e.g. mock sources of another language) become extra units and shift every id, so the "
                             "output depends on what was analysed before")
 
+    # whether the wipe happens is decided by the force flag alone: an option that only controls how much is printed (or any other
+    # option) must not stand between --force and the wipe
+    if wipe:
+        key = "preparation.py::WorkspaceBuilder.manage_directory::the forced wipe depends on the force flag only"
+        conds = mcfg.conditions_at(wipe[0])
+        opts = sorted({x.attr for a, _t in conds for x in ast.walk(a) if isinstance(x, ast.Attribute) and isinstance(x.value, ast.Attribute)
+                       and x.value.attr == "options"})
+        other = [o for o in opts if o != "force"]
+        if "force" not in opts:
+            rep.unknown("C14.R4", key, "preparation.py", mcfg.stmt[wipe[0]].lineno, f"the wipe is not guarded by options.force in a recognised way ({opts})")
+        elif other:
+            rep.violation("C14.R4", key, "preparation.py", mcfg.stmt[wipe[0]].lineno,
+                          f"with --force the workspace is emptied only when also options.{other[0]} has a particular value "
+                          f"(`{'; '.join(norm(a) for a, _t in conds)[:120]}`): a run with the other value re-uses a workspace that still holds the "
+                          f"sources of whatever was analysed there before, which become extra units and shift every id")
+        else:
+            rep.holds("C14.R4", key, "preparation.py", mcfg.stmt[wipe[0]].lineno, "guarded by options.force only")
     # ------------------------------------------------------------------ R3
     for f in model.all_funcs():
         if f.module.rel.startswith("lang/") and f.module.rel != "lang/lang_analysis.py":
